@@ -16,6 +16,7 @@ from __future__ import annotations
 
 import ast
 import operator as pyop
+import time
 import z3
 
 from pyvc.contract import VC, Res, FnTask
@@ -392,7 +393,75 @@ def tables(task, tier, seed):
     return rs
 
 
+# ---------------------------------------------------------------- the parser step of the lemma (bounded)
+
+OPERAND_FORMS = ["5", "2.5", "'s'", "a", "(5)", "(a)", "a.x", "a[0]", "f(5)", "5|abs", "-5", "+5", "not a", "[5]", "5 if a else 6", "5 ** 2"]
+
+
+def parser_operator_nodes(task, tier, seed):
+    """Every operator application written in a template becomes the operator's node class with the written operands as
+    children (the parser neither drops nor pre-evaluates an application): the step between the template text and the
+    visitors / as_const methods the proved obligations are about.  Bounded: operators x OPERAND_FORMS (x OPERAND_FORMS)."""
+    import jinja2
+    t0 = time.time()
+    env = jinja2.Environment()
+    n, rs = 0, []
+
+    def expr_of(src):
+        return env.parse("{{ " + src + " }}").body[0].nodes[0]
+
+    def same(a, b):
+        return type(a) is type(b) and a == b
+
+    for cls, op in UN.items():
+        for x in OPERAND_FORMS:
+            n += 1
+            # the operand is written bare where that is one primary expression (so `+5` itself is covered), parenthesised otherwise
+            bare = x in ("5", "2.5", "'s'", "a", "(5)", "(a)", "[5]")
+            src = f"{op}{x}" if bare else f"{op}({x})"
+            got, want_child = expr_of(src), expr_of(f"({x})")
+            inner = got.node if type(got) is getattr(N, cls) else None
+            ok = inner is not None and same(inner, want_child)
+            if not ok:
+                rs.append(Res(f"{task.name}.{cls}", "refuted", "bounded", time.time() - t0,
+                              f"`{{{{ {src} }}}}` is parsed as {got!r}, not as nodes.{cls} applied to the operand {want_child!r}: the application never reaches visit_{cls} / call_unop",
+                              "bounded", {"table": "parser", "source": src}))
+                return rs
+    for cls, op in BIN.items():
+        for x in OPERAND_FORMS[:9]:
+            for y in OPERAND_FORMS[:9]:
+                n += 1
+                src = f"({x}) {op} ({y})"
+                got = expr_of(src)
+                ok = type(got) is getattr(N, cls) and same(got.left, expr_of(f"({x})")) and same(got.right, expr_of(f"({y})"))
+                if not ok:
+                    rs.append(Res(f"{task.name}.{cls}", "refuted", "bounded", time.time() - t0,
+                                  f"`{{{{ {src} }}}}` is parsed as {got!r}, not as nodes.{cls} of the two written operands", "bounded", {"table": "parser", "source": src}))
+                    return rs
+    task.stats = {"cases": n}
+    rs.append(Res(f"{task.name}.all", "bounded-ok", "bounded", time.time() - t0, f"{n} written applications become their operator node", "bounded"))
+    return rs
+
+
+def native_applications(task, tier, seed):
+    """the native oracle of the replays as a bounded check of its own (hook log == applications written)"""
+    t0 = time.time()
+    bad, msg = native_interception()
+    if bad:
+        return [Res(f"{task.name}.diverges", "refuted", "bounded", time.time() - t0, msg, "bounded", {"table": "native"})]
+    return [Res(f"{task.name}.all", "bounded-ok", "bounded", time.time() - t0, msg, "bounded")]
+
+
+parser_nodes = FnTask("C20", "C20.bounded.parser_operator_nodes", parser_operator_nodes, "bounded", native_interception)
+parser_nodes.bound_text = ("16 operand forms per unary operator, 9 x 9 parenthesised operand forms per binary operator, parsed by the real Parser: "
+                           "the node is the operator's class with the written operands (stands in for a contract on Parser.parse_unary / parse_math* / "
+                           "parse_pow, which C02.parser.precedence proves for precedence but not for 'no application is dropped')")
+applications = FnTask("C20", "C20.bounded.applications", native_applications, "bounded", native_interception)
+applications.bound_text = ("every interceptable operator x every single-operator interception set x operands {variables, literals}: the hooks see exactly the "
+                           "applications written, with the written operands, and the rendered value is the hook's result")
+
 TASKS = (
+    [parser_nodes, applications] +
     [EmitTask("C20", f"C20.emit.routed.{cls}", f"jinja2.compiler:CodeGenerator.visit_{cls}", getattr(N, cls), routed_predicate("bin", op), replay_fn=native_interception, min_paths=2) for cls, op in BIN.items()]
     + [EmitTask("C20", f"C20.emit.routed.{cls}", f"jinja2.compiler:CodeGenerator.visit_{cls}", getattr(N, cls), routed_predicate("un", op), replay_fn=native_interception, min_paths=2) for cls, op in UN.items()]
     + [NoFold(cls, "bin") for cls in BIN] + [NoFold(cls, "un") for cls in UN]
@@ -405,8 +474,12 @@ META = {
     "explanation": "Emission contracts on the real visitors of all interceptable operators (symbolic sandboxed / intercepted flags), "
                    "VCs on BinExpr/UnaryExpr.as_const (no folding of intercepted operators, Impossible raised before operands are "
                    "evaluated), on the folding wrapper and the hook methods, plus exhaustive table agreement. Lemma: every application "
-                   "reaches its visitor unfolded and is emitted as a hook call whose value is the expression's value.",
+                   "that the parser turned into its operator node reaches its visitor unfolded and is emitted as a hook call whose value is "
+                   "the expression's value. The parser step (a written application becomes that node, none is dropped or pre-evaluated) is "
+                   "NOT proved: it is the bounded stand-in C20.bounded.parser_operator_nodes (added after seed C20_SEED_3, which folded `+literal` "
+                   "in Parser.parse_unary); C20.bounded.applications runs the native oracle end to end.",
     "assumptions": ["A6 subclasses overriding call_binop/call_unop are called through this contract",
+                    "parser: operator applications become operator nodes - bounded check only (operators x operand forms), not a proof",
                     "the emitted Python operator form means Python's operator (trusted)",
                     "children's as_const / visit are used through abstract contracts (modular)"],
     "trusted_base": ["pyvc emission engine (symbolic execution of CodeGenerator methods)", "z3 5.1"],
